@@ -219,7 +219,9 @@ class DiagLinearOperator(TriangularLinearOperator):
         if isinstance(other, TriangularLinearOperator):
             return TriangularLinearOperator(self @ other._tensor, upper=other.upper)
 
-        if isinstance(other, BlockDiagLinearOperator):
+        # (the block shortcut re-views the diagonal block by block: only for an operand of the same shape; a broadcasting
+        # batch goes through the generic route below)
+        if isinstance(other, BlockDiagLinearOperator) and other.shape == self.shape:
             diag_reshape = self._diag.view(*other.base_linear_op.shape[:-1])
             diag = DiagLinearOperator(diag_reshape)
             # using matmul here avoids having to implement special case of elementwise multiplication
